@@ -1,0 +1,19 @@
+//go:build verif
+
+package hashmap
+
+import "github.com/safing/portbase/database/record"
+
+// VerifDump returns a copy of the metadata of every physically stored record (verification harness only).
+func (hm *HashMap) VerifDump() map[string]record.Meta {
+	hm.dbLock.RLock()
+	defer hm.dbLock.RUnlock()
+
+	all := make(map[string]record.Meta, len(hm.db))
+	for key, r := range hm.db {
+		r.Lock()
+		all[key] = *r.Meta()
+		r.Unlock()
+	}
+	return all
+}
